@@ -215,12 +215,33 @@ func (g *lockGen) plan() *BlockPlan {
 	if rare(5) {
 		for k := 1 + r.Intn(2); k > 0; k-- {
 			t := 1 + r.Intn(4)
+			if rare(2) { // prefer a token that carries a threshold (its record keeps the threshold through a re-weight)
+				for ti := range st.Tokens {
+					if st.Thr[ti] > 0 && rare(2) {
+						t = ti + 1
+					}
+				}
+			}
 			wgt := int64(r.Intn(4))
 			if t == 1 && wgt == 0 {
 				wgt = 1 // the bedrock validator's token keeps a weight
 			}
 			lk.UpdateWeights = append(lk.UpdateWeights, &goattypes.UpdateTokenWeightRequest{Token: project.TokenAddrs[t-1], Weight: uint64(wgt)})
 			weights = append(weights, Ev{"t": t, "w": wgt})
+		}
+	}
+	if rare(4) && len(weights) == 0 { // a weight change of a token that a jailed / exited / tombstoned validator still holds (it must not regain power)
+		for _, v := range st.Val {
+			if !v.Exists || v.Status == "Active" || v.Status == "Pending" {
+				continue
+			}
+			for ti := range st.Tokens {
+				if v.Locking[ti] > 0 && st.Tokens[ti].Exists && len(weights) == 0 {
+					wgt := st.Tokens[ti].Weight + int64(1+r.Intn(2))
+					lk.UpdateWeights = append(lk.UpdateWeights, &goattypes.UpdateTokenWeightRequest{Token: project.TokenAddrs[ti], Weight: uint64(wgt)})
+					weights = append(weights, Ev{"t": ti + 1, "w": wgt})
+				}
+			}
 		}
 	}
 	if rare(7) {
@@ -320,7 +341,7 @@ func (g *lockGen) plan() *BlockPlan {
 		nUnl = 12 + r.Intn(14)
 		plan.DT = int64(r.Intn(2))
 	}
-	if rare(5) { // boundary-seeking unlock: take a validator's holding of a token with a threshold to just below / exactly at it
+	if rare(3) { // boundary-seeking unlock: take a validator's holding of a token with a threshold to just below / exactly at it
 		var cands [][3]int64
 		for vi, v := range st.Val {
 			if vi == 0 || !v.Exists {
